@@ -2,6 +2,11 @@
 
 NATIVE = {"quick": ["native"], "thorough": ["native"]}
 
+HOOK_COMMITS = ["611dceb", "dfbb501", "8c2e05d", "bdc40f2"]
+
+# properties not claimed (yet), with the reason shown in MANIFEST.not_applicable
+NOT_CLAIMED = {}
+
 CHECKS = {
     "C18": {
         "engines": NATIVE,
@@ -13,6 +18,13 @@ CHECKS = {
                 "under '/'); every pair in the enumeration is distinct by construction",
         "exhaustive": "quick: specifiers <=5 segments x importers <=3 segments; thorough: <=5 x <=4",
         "floor": {"quick": 1000000, "thorough": 10000000},
+        "technique": "runtime monitoring: reference-model oracle over an exhaustively executed input space",
+        "level_text": "ModulePath::resolve is executed on every (specifier, importer) pair of the exhaustively enumerated "
+                      "alphabet space (quick: <=5 x <=3 segments, 1.4e8 pairs; thorough: <=5 x <=4, 1e9 pairs) plus seeded random "
+                      "longer paths; every result is compared with an independent reference resolver and the algebraic laws "
+                      "(absolute, canonical, idempotent). Exhaustive over the bounded space, sampled beyond it.",
+        "level_note": "trusts the 25-line reference resolver; '.'/'..' as whole specifiers and '..' above a non-absolute "
+                      "importer are left open by the statement and not judged",
         "assumptions": [
             "reference resolver (25 lines, harness/src/checks/c18.rs) is the specification of 'join, then drop . .. and empty segments'",
             "the specifiers '.' and '..' themselves and '..' climbing above a non-absolute importer are left open by the statement and are not judged",
